@@ -931,7 +931,7 @@ fn expected_probes(prop: &str) -> Vec<&'static str> {
         ],
         "C19" => vec!["c19.prefix_ok", "c19.prefix_eof", "c19.trunc_texts", "c19.receiver_runs", "c19.receiver_waits", "c19.monitor_runs", "errors.io", "errors.syntax", "errors.eof"],
         "C12" => vec!["c12.storm_text_runs", "c12.queue_runs", "c12.trivia_runs", "c12.mode_agreement_runs", "c12.fault_in_history", "c12.config_strict", "c12.config_faulty", "hist.any_benign_runs"],
-        "C03" => vec!["hist.any_benign_runs", "hist.any_faulty_runs", "c03.deep_runs", "c03.storm_runs", "c03.storm_conclusive", "c03.storm_overdeep_probe_reached", "c03.storm_with_transient_faults", "c03.long_token_runs", "c03.single_shot_runs", "errors.io", "errors.syntax", "errors.eof"],
+        "C03" => vec!["hist.any_benign_runs", "hist.any_faulty_runs", "c03.deep_runs", "c03.storm_runs", "c03.storm_conclusive", "c03.storm_overdeep_probe_reached", "c03.storm_with_transient_faults", "c03.enumerated_tiny_inputs", "c03.long_token_runs", "c03.single_shot_runs", "errors.io", "errors.syntax", "errors.eof"],
         "C17" => vec!["hist.any_benign_runs", "hist.any_faulty_runs", "c17.printer_checks", "hook.site0", "hook.site1", "hook.site2", "hook.site3"],
         _ => vec![],
     }
